@@ -3,17 +3,17 @@ import os
 import shutil
 
 from . import matrix, refparser
-from .common import HarnessError, digest, pmap
+from .common import REPO, HarnessError, digest, pmap
 
 
-def check_build(ctx, b, cache, compile_=False, dedup=True):
+def check_build(ctx, b, cache, compile_=False, dedup=True, only=None):
     """Parse every top-level profile of one build over its overlay. Returns list of
     (file, errclass, text)."""
     cfg = b.cfg
     ov = os.path.join(ctx.scratch, "ov", cfg.id)
     nset = refparser.make_overlay(ov, b.aad, cfg.ver, cfg.abi)
     ctx.extra["set_aside_statements"] = ctx.extra.get("set_aside_statements", 0) + nset
-    profs = matrix.top_profiles(b.aad)
+    profs = matrix.top_profiles(b.aad) if only is None else list(only)
     td = refparser.tree_digest(ov)
     jobs = []
     results = {}
@@ -37,7 +37,7 @@ def check_build(ctx, b, cache, compile_=False, dedup=True):
     # abstractions / tunables / mappings of the build: reached through some profile?
     reached = refparser.include_closure(ov, [os.path.join(ov, n) for n in profs])
     stubs = []
-    for sub in ("abstractions", "tunables", "mappings"):
+    for sub in (("abstractions", "tunables", "mappings") if only is None else ()):
         base = os.path.join(b.aad, sub)
         for dp, dns, fns in os.walk(base):
             for fn in fns:
@@ -111,6 +111,23 @@ def run(ctx):
         nfiles += n
         for fn, cls, text in fails:
             agg.setdefault((fn, cls), []).append((b.cfg.id, text))
+    if ctx.tier != "thorough":
+        # quick: full compile (DFA construction, merged-rule x conflicts) of a sample per configuration: every profile that
+        # only exists in full-system-policy builds plus seed-drawn others; the thorough tier compiles everything
+        full_only = set(os.listdir(os.path.join(REPO, "apparmor.d", "groups", "_full"))) if os.path.isdir(
+            os.path.join(REPO, "apparmor.d", "groups", "_full")) else set()
+        ccache = {}
+        ncomp = 0
+        for b in builds:
+            if b.rc != 0:
+                continue
+            profs = matrix.top_profiles(b.aad)
+            pick = sorted(set(p for p in profs if p in full_only) | set(ctx.rng.sample(profs, min(12, len(profs)))))
+            fails, n = check_build(ctx, b, ccache, compile_=True, dedup=True, only=pick)
+            ncomp += n
+            for fn, cls, text in fails:
+                agg.setdefault((fn, "compile-" + cls), []).append((b.cfg.id, text))
+        ctx.extra["sampled_full_compiles"] = ncomp
     if ctx.tier == "thorough":
         # full compile (DFA construction) of every distinct (file bytes, include tree)
         ccache = {}
